@@ -92,7 +92,14 @@ def correspondence(ctx):
                 r = p.point(Q, water=water)
             finally:
                 signal.alarm(0)
-        except Exception:   # noqa  (incl. Timeout): searched by the monitor
+        except Timeout:
+            # a query that does not return: the monitor reports it; do not spend the run waiting for more of them
+            ctx.count('corr_impl_timeouts')
+            if ctx.stats.get('corr_impl_timeouts', 0) >= 3:
+                ctx.mismatch('Pump.point did not return within 10 s for three generated queries; the pump model always returns', describe(p, Q, water), 'returns', 'no return')
+                break
+            continue
+        except Exception:   # noqa: searched by the monitor
             ctx.count('corr_impl_nonreal')
             continue
         if not all(is_real_finite(x) for x in r):
@@ -183,6 +190,8 @@ def monitor(ctx, extended=False):
     classes = set()
     n = ctx.n(3000, 80000) * (3 if extended else 1)
     for i in range(n):
+        if ctx.stats.get('timeouts', 0) >= 3:
+            break       # three queries that do not return are reported; more waiting adds nothing
         p = gen_pump(ctx.rng)
         Q = gen_Q(ctx.rng, p)
         hist = []
@@ -203,6 +212,7 @@ def monitor(ctx, extended=False):
                     signal.alarm(0)
             except Timeout:
                 ctx.violation('point() did not terminate within 10 s', inp, key='termination')
+                ctx.count('timeouts')
                 break
             except Exception as e:   # noqa
                 ctx.violation(f'point() raised {type(e).__name__}: {e}', inp, key='raised')
